@@ -194,7 +194,7 @@ def _canon(path, krate=None):
 
 def _canon_paths(x):
     if isinstance(x, dict):
-        for k in ("path", "trait", "impl", "trait_item", "parent", "in_trait"):
+        for k in ("path", "trait", "impl", "trait_item", "parent", "in_trait", "enum"):
             if isinstance(x.get(k), str):
                 x[k] = _canon(x[k], x.get("krate") if k == "path" else None)
         if isinstance(x.get("s"), str) and "k" in x:
